@@ -208,6 +208,23 @@ func main() {
 				fmt.Fprintf(&sb, "(assert %s)\n(assert (not %s))\n", o.cur, o.goal)
 			}
 			o.SMT = sb.String()
+			if o.extra == "" && !o.Cover {
+				if parts := splitGoal(o.goal); len(parts) > 1 {
+					for _, pg := range parts {
+						sk, body := skolemize(pg)
+						o.Parts = append(o.Parts, prelude+decls[:o.declLen]+sk+fmt.Sprintf("(assert %s)\n(assert (not %s))\n", o.cur, body))
+					}
+				} else if len(parts) == 1 {
+					if sk, body := skolemize(parts[0]); sk != "" {
+						var sb2 strings.Builder
+						sb2.WriteString(prelude)
+						sb2.WriteString(decls[:o.declLen])
+						sb2.WriteString(sk)
+						fmt.Fprintf(&sb2, "(assert %s)\n(assert (not %s))\n", o.cur, body)
+						o.SMT = sb2.String()
+					}
+				}
+			}
 			o.Params = c.params
 			o.NResults = fn.Signature.Results().Len()
 			if o.replayTail != "" {
@@ -517,6 +534,151 @@ func (g *Global) callsWithObligations(fn *ssa.Function) bool {
 		}
 	}
 	return false
+}
+
+// splitGoal splits a goal into conjuncts, distributing a bounded forall over a conjunction.
+func splitGoal(g string) []string {
+	var out []string
+	for _, p := range splitAnd(g) {
+		out = append(out, splitForall(p)...)
+	}
+	return out
+}
+
+// skolemize turns a universally quantified goal into a goal about a fresh constant
+// (the solvers are far better at that form than at a negated quantifier).
+func skolemize(g string) (decl string, body string) {
+	body = g
+	for n := 0; n < 4 && strings.HasPrefix(body, "(forall (("); n++ {
+		k := strings.Index(body, ")) ")
+		if k < 0 {
+			break
+		}
+		binder := strings.Fields(body[len("(forall (("):k])
+		if len(binder) < 2 {
+			break
+		}
+		bn := binder[0]
+		srt := strings.Join(binder[1:], " ")
+		inner := body[k+3 : len(body)-1]
+		if strings.HasPrefix(inner, "(! ") {
+			t := inner[3:]
+			d, end := 0, -1
+			for i := 0; i < len(t); i++ {
+				if t[i] == '(' {
+					d++
+				} else if t[i] == ')' {
+					d--
+					if d == 0 {
+						end = i + 1
+						break
+					}
+				}
+			}
+			if end < 0 {
+				break
+			}
+			inner = t[:end]
+		}
+		sk := "sk!" + strings.ReplaceAll(bn, "!", "_")
+		decl += fmt.Sprintf("(declare-const %s %s)\n", sk, srt)
+		body = strings.ReplaceAll(inner, bn, sk)
+	}
+	return decl, body
+}
+
+// splitForall: (forall ((x S)) (! (=> rng (and A B)) pats)) -> two foralls (patterns recomputed).
+func splitForall(s string) []string {
+	if !strings.HasPrefix(s, "(forall ((") {
+		return []string{s}
+	}
+	// binder
+	k := strings.Index(s, ")) ")
+	if k < 0 {
+		return []string{s}
+	}
+	binder := s[len("(forall (("):k] // "x S"
+	bn := strings.Fields(binder)[0]
+	body := s[k+3 : len(s)-1]
+	if strings.HasPrefix(body, "(! ") {
+		// strip annotation: find end of the first term
+		inner := body[3:]
+		d, end := 0, -1
+		for i := 0; i < len(inner); i++ {
+			if inner[i] == '(' {
+				d++
+			} else if inner[i] == ')' {
+				d--
+				if d == 0 {
+					end = i + 1
+					break
+				}
+			}
+		}
+		if end < 0 {
+			return []string{s}
+		}
+		body = inner[:end]
+	}
+	if !strings.HasPrefix(body, "(=> ") {
+		return []string{s}
+	}
+	args := topArgs(body[4 : len(body)-1])
+	if len(args) != 2 {
+		return []string{s}
+	}
+	parts := splitAnd(args[1])
+	if len(parts) < 2 {
+		return []string{s}
+	}
+	var out []string
+	for _, p := range parts {
+		imp := "(=> " + args[0] + " " + p + ")"
+		pats := selectPatterns(p, bn)
+		if len(pats) > 0 {
+			ps := ""
+			for _, q := range pats {
+				ps += " :pattern (" + q + ")"
+			}
+			out = append(out, "(forall (("+binder+")) (! "+imp+ps+"))")
+		} else {
+			out = append(out, "(forall (("+binder+")) "+imp+")")
+		}
+	}
+	return out
+}
+
+// topArgs splits a space-separated list of terms at depth 0.
+func topArgs(body string) []string {
+	var parts []string
+	depth, start := 0, 0
+	inBar := false
+	for i := 0; i < len(body); i++ {
+		ch := body[i]
+		if ch == '|' {
+			inBar = !inBar
+		}
+		if inBar {
+			continue
+		}
+		switch ch {
+		case '(':
+			depth++
+		case ')':
+			depth--
+		case ' ':
+			if depth == 0 {
+				if i > start {
+					parts = append(parts, body[start:i])
+				}
+				start = i + 1
+			}
+		}
+	}
+	if start < len(body) {
+		parts = append(parts, body[start:])
+	}
+	return parts
 }
 
 // splitAnd splits "(and a b c)" recursively into its top-level conjuncts.
